@@ -86,6 +86,8 @@ func (c *Client) receive() ([]Message, error) {
 	var frameSize uint32
 	var dataSize uint16
 	var m []Message
+	// received bytes not yet decrypted, because they do not fill a whole cipher block
+	var pending []byte
 
 	for i, data := 0, make([]byte, uint32(RSCP_CRYPT_BLOCK_SIZE)*uint32(c.config.ReceiveBufferBlockSize)); ; {
 		var err error
@@ -98,7 +100,16 @@ func (c *Client) receive() ([]Message, error) {
 			return nil, ErrRscpInvalidFrameLength
 		}
 
-		switch m, err = Read(&c.decrypter, &buf, &crcFlag, &frameSize, &dataSize, data[:i]); {
+		// the transport may deliver any number of bytes, only pass whole cipher blocks on
+		pending = append(pending, data[:i]...)
+		n := len(pending) - len(pending)%int(RSCP_CRYPT_BLOCK_SIZE)
+		if n == 0 {
+			continue
+		}
+		blocks := pending[:n:n]
+		pending = append([]byte{}, pending[n:]...)
+
+		switch m, err = Read(&c.decrypter, &buf, &crcFlag, &frameSize, &dataSize, blocks); {
 		case errors.Is(err, ErrRscpInvalidFrameLength):
 			// frame not complete
 			continue
